@@ -408,10 +408,11 @@ class SharesManager(BaseManager):
         if parents:
             parent = parents[-1]
             children = parent.get_items_for_directory(directory_object)
-            directory_object.items |= children
+            directory_object.items |= self._move_items(children, directory_object)
             parent.items -= children
 
         self._shared_directories.append(directory_object)
+        self._build_term_map(directory_object)
 
         self._event_bus.emit_sync(SharedDirectoryChangeEvent(directory_object))
 
@@ -492,7 +493,7 @@ class SharesManager(BaseManager):
         # directory
         if parents:
             parent = parents[-1]
-            parent.items |= shared_directory.items
+            parent.items |= self._move_items(shared_directory.items, parent)
 
         # The removed directory keeps its items alive, rebuild the term map so
         # that only items of the remaining directories can be found
@@ -885,6 +886,24 @@ class SharesManager(BaseManager):
                 files=convert_items_to_file_data(items, use_full_path=False)
             )
         ]
+
+    def _move_items(self, items: set[SharedItem], shared_directory: SharedDirectory) -> set[SharedItem]:
+        """Creates the items for the given ``items`` as they belong to the given
+        ``shared_directory``: the directory an item belongs to determines its
+        ``subdir``, remote path and for who it is locked
+        """
+        moved_items = set()
+        for item in items:
+            subdir = os.path.relpath(
+                os.path.dirname(item.get_absolute_path()), shared_directory.absolute_path)
+            if subdir == '.':
+                subdir = ''
+
+            moved_item = SharedItem(shared_directory, subdir, item.filename, item.modified)
+            moved_item.attributes = item.attributes
+            moved_items.add(moved_item)
+
+        return moved_items
 
     def _add_item_to_term_map(self, item: SharedItem):
         path = (item.subdir + "/" + item.filename).lower()
